@@ -19,7 +19,9 @@ VERIF = os.path.dirname(os.path.dirname(os.path.abspath(__file__)))
 def run_one(sid):
     meta_p = os.path.join(VERIF, "seeded", sid, "meta.json")
     meta = json.load(open(meta_p))
-    prop = meta["property"]
+    # "checked_by": the property whose check reports the seed with an input when that is not the property it was written
+    # against (the change breaks that one too, or first): C07n -> C06 (only the key ORDER is wrong), C07s -> C17 (a FAILED edit)
+    prop = meta.get("checked_by", meta["property"])
     if str(meta.get("status", "")).startswith("obsolete"):
         return sid, prop, "obsolete", ""
     wt = f"/tmp/sdm_{sid}"
@@ -82,7 +84,8 @@ def main():
                 how.append(f"{m.group(4)} failing inputs")
         if outcome == "obsolete":
             how = ["no longer breaks the property on the repaired tree (demonstration passes with the change applied): " + meta["status"][:120]]
-        rows.append(f"| {sid} | {prop} | {meta.get('change', '')} | {meta.get('needs_to_manifest', '')} | **{outcome}** | {'; '.join(how)} |")
+        shown = prop if prop == meta["property"] else f"{meta['property']} (checked by {prop})"
+        rows.append(f"| {sid} | {shown} | {meta.get('change', '')} | {meta.get('needs_to_manifest', '')} | **{outcome}** | {'; '.join(how)} |")
         print(sid, prop, outcome, summary)
     if not args:
         table = ["| seed | property | change | needs, to manifest | caught (quick tier) | how |", "|---|---|---|---|---|---|"] + rows
